@@ -989,6 +989,9 @@ class Interp(object):
                 return o[k]
             except KeyError:
                 raise PyRaise('KeyError', repr(k), self.where)
+            except PyRaise as e:
+                e.where = e.where or self.where
+                raise
             except TypeError as e:
                 raise PyRaise('TypeError', str(e), self.where)
         if isinstance(o, Obj):
@@ -1860,7 +1863,8 @@ def make_builtins(interp):
         d = {}
         if a:
             if isinstance(a[0], dict):
-                d.update(a[0])
+                for kk, vv in a[0].items():
+                    d[kk] = vv
             else:
                 for kk, vv in interp.iterate(a[0]):
                     d[kk] = vv
